@@ -32,6 +32,7 @@ import (
 	rbacv1 "k8s.io/api/rbac/v1"
 	kextv1 "k8s.io/apiextensions-apiserver/pkg/apis/apiextensions/v1"
 	metav1 "k8s.io/apimachinery/pkg/apis/meta/v1"
+	"k8s.io/apimachinery/pkg/apis/meta/v1/unstructured"
 	"k8s.io/apimachinery/pkg/runtime"
 	"k8s.io/apimachinery/pkg/runtime/schema"
 	"k8s.io/apimachinery/pkg/types"
@@ -150,6 +151,12 @@ type c18Scn struct {
 	Roles     []c18Role    `json:"roles"`    // pre-existing ClusterRoles
 	Bindings  []c18Binding `json:"bindings"` // pre-existing ClusterRoleBindings
 	Faults    [][]c18Fault `json:"faults"`   // one fault plan per round
+	// the validator is a long-lived object (built once at Setup): before the scenario proper
+	// it has already validated the same requests against an EARLIER content of the allow-list
+	// ClusterRole, which an administrator has edited in place since (RBAC objects have no
+	// generation; only the resourceVersion moves)
+	Warm      bool       `json:"warm,omitempty"`
+	WarmAllow []c18PRule `json:"warmAllow,omitempty"`
 	// tree: raw rule-tree operations
 	Paths   [][]string `json:"paths"`   // node.Allow(p) in this order
 	Queries [][]string `json:"queries"` // node.Allowed(q)
@@ -426,17 +433,43 @@ func c18Plan(fs []c18Fault) func(CallInfo) Outcome {
 
 // c18Validate runs the real validator the scenario configures against the store.
 func c18Validate(st *Store, mode string, reqs []rbacv1.PolicyRule) (rej []roles.Rule, err error, panicked string) {
+	return c18ValidateWith(roles.NewClusterRoleBackedValidator(st, c18AllowName), mode, reqs)
+}
+
+func c18ValidateWith(v *roles.ClusterRoleBackedValidator, mode string, reqs []rbacv1.PolicyRule) (rej []roles.Rule, err error, panicked string) {
 	panicked = Guard(func() {
 		if mode == "none" {
 			rej, err = roles.VerySecureValidator(context.Background(), reqs...)
 			return
 		}
-		rej, err = roles.NewClusterRoleBackedValidator(st, c18AllowName).ValidatePermissionRequests(context.Background(), reqs...)
+		rej, err = v.ValidatePermissionRequests(context.Background(), reqs...)
 	})
 	return
 }
 
-func c18Reconciler(st *Store, s c18Scn) reconcile.Reconciler {
+// c18WarmUp lets the long-lived validator answer once for the earlier allow-list content,
+// then edits the ClusterRole in place to the scenario's allow-list.
+func c18WarmUp(st *Store, s c18Scn, v *roles.ClusterRoleBackedValidator, reqs []rbacv1.PolicyRule) {
+	if !s.Warm || !(s.Validator == "role" || s.Kind == "validate") {
+		return
+	}
+	gk := schema.GroupKind{Group: rbacv1.GroupName, Kind: "ClusterRole"}
+	set := func(rules []c18PRule) {
+		st.Mutate(gk, "", c18AllowName, func(u *unstructured.Unstructured) {
+			cr := &rbacv1.ClusterRole{}
+			_ = runtime.DefaultUnstructuredConverter.FromUnstructured(u.Object, cr)
+			cr.Rules = c18K8sRules(rules)
+			m, _ := runtime.DefaultUnstructuredConverter.ToUnstructured(cr)
+			u.Object = m
+		})
+	}
+	set(s.WarmAllow)
+	_, _, _ = c18ValidateWith(v, "role", reqs)
+	set(s.Allow)
+	st.Log = nil
+}
+
+func c18Reconciler(st *Store, s c18Scn, v *roles.ClusterRoleBackedValidator) reconcile.Reconciler {
 	switch s.Kind {
 	case "xrd":
 		return definition.NewReconciler(c18Mgr{c: st})
@@ -445,7 +478,7 @@ func c18Reconciler(st *Store, s c18Scn) reconcile.Reconciler {
 	}
 	opts := []roles.ReconcilerOption{roles.WithOrgDiffer(roles.OrgDiffer{DefaultRegistry: c18DefaultRegistry})}
 	if s.Validator != "none" {
-		opts = append(opts, roles.WithPermissionRequestsValidator(roles.NewClusterRoleBackedValidator(st, c18AllowName)))
+		opts = append(opts, roles.WithPermissionRequestsValidator(v))
 	}
 	return roles.NewReconciler(c18Mgr{c: st}, opts...)
 }
@@ -471,8 +504,10 @@ func c18Run(s c18Scn) (c18Obs, []Mon) {
 		return obs, mons
 	}
 
+	val := roles.NewClusterRoleBackedValidator(st, c18AllowName)
 	if s.Kind == "validate" {
-		rej, err, p := c18Validate(st, "role", c18K8sRules(s.Requests))
+		c18WarmUp(st, s, val, c18K8sRules(s.Requests))
+		rej, err, p := c18ValidateWith(val, "role", c18K8sRules(s.Requests))
 		if p != "" {
 			mons = append(mons, Mon{Sig: "C18:panic", Why: p})
 		}
@@ -507,7 +542,14 @@ func c18Run(s c18Scn) (c18Obs, []Mon) {
 
 	before := c18FinalRoles(st)
 	beforeB := c18FinalBindings(st)
-	rec := c18Reconciler(st, s)
+	if s.Kind == "reconcile" {
+		for _, p := range s.PRs {
+			if p.Name == s.Target {
+				c18WarmUp(st, s, val, c18K8sRules(p.Requests))
+			}
+		}
+	}
+	rec := c18Reconciler(st, s, val)
 	anyWrite := false
 	for _, fs := range s.Faults {
 		st.Revive()
